@@ -244,7 +244,9 @@ def one_run(cfg, wd, tag, perturb=None, backend="h5", diagnostic=False, progress
 
 def gen_cfg(rnd):
     kind = rnd.choice(["hmc", "hmc", "rwmh"])
-    return {"kind": kind, "d": rnd.choice([2, 3]), "P": rnd.choice([8, 12, 20]), "t": rnd.choice([1, 2]), "seed": rnd.randrange(1 << 30), "tseed": rnd.randrange(1 << 30),
+    return {"kind": kind, "d": rnd.choice([2, 3]), "P": rnd.choice([8, 12, 20]), "t": rnd.choice([1, 2]),
+            "seed": rnd.choice([0, 1, rnd.randrange(1 << 30), rnd.randrange(1 << 30)]),       # 0 is a seed like any other
+            "tseed": rnd.randrange(1 << 30),
             "tune": rnd.random() < 0.3, "stepsize": rnd.choice([0.1, 0.3, 0.6]), "steps": rnd.randint(1, 4), "integrator": rnd.choice(["lf", "3s", "4s"]),
             "mass": rnd.choice(["unit", "diagonal", "full", "none"]), "randomize": rnd.random() < 0.5}
 
